@@ -239,10 +239,11 @@ Proof.
 Qed.
 
 Lemma load_dump_clear_log e s sn :
-  stored (sr (nd s)) = Some (Good sn) -> s_ver sn <= self_ver (nd s) ->
+  stored (sr (nd s)) = Some (Good sn) -> applied (nd s) < eidx (s_e1 sn) -> s_ver sn <= self_ver (nd s) ->
   log (nd (load_dump e true s)) = [s_e0 sn; s_e1 sn].
 Proof.
-  intros Hs Hv. unfold load_dump. rewrite Hs.
+  intros Hs Ha Hv. unfold load_dump. rewrite Hs.
+  destruct (eidx (s_e1 sn) <=? applied (nd s)) eqn:Eb; [apply N.leb_le in Eb; lia|]. cbn [andb].
   destruct (self_ver (nd s) <? s_ver sn) eqn:E; [apply N.ltb_lt in E; lia|].
   cbn [orb].
   destruct (dyn (cf e)); rewrite ?(fr_update_cluster log) by frs; reflexivity.
@@ -331,16 +332,17 @@ Proof.
     specialize (F1 ltac:(frs) p s0). specialize (F2 ltac:(frs) p s0).
     destruct (set_transmission p s0) as [s2 dn]. cbn [fst snd] in *.
     destruct (dn && load_dump_ok s2) eqn:Ed.
-    2:{ left. rewrite ae_commit_spec. congruence. }
+    2:{ left. destruct dn; rewrite ae_commit_spec; rewrite ?(fr_load_dump commit) by frs; congruence. }
     apply andb_prop in Ed. destruct Ed as [-> Hok].
     destruct (Hst eq_refl) as (b & Hb1 & Hb2).
     unfold load_dump_ok in Hok. rewrite Hb2 in Hok. destruct b as [sn|]; [|discriminate].
-    apply N.leb_le in Hok.
+    apply andb_prop in Hok. destruct Hok as [Hah Hok].
+    apply negb_true_iff, N.leb_gt in Hah. apply N.leb_le in Hok.
     rewrite ae_commit_spec, !nd_send_next_idx.
     rewrite (fr_load_dump commit) by frs.
-    rewrite (load_dump_clear_log e s2 sn Hb2 Hok).
+    rewrite (load_dump_clear_log e s2 sn Hb2 Hah Hok).
     rewrite (fr_ae_commit log), nd_send_next_idx by frs.
-    rewrite (load_dump_clear_log e s2 sn Hb2 Hok).
+    rewrite (load_dump_clear_log e s2 sn Hb2 Hah Hok).
     change (last_idx [s_e0 sn; s_e1 sn]) with (eidx (s_e1 sn)).
     rewrite F1, E0.
     destruct (commit n <? c) eqn:Ecc; [|now left]. apply N.ltb_lt in Ecc.
@@ -470,26 +472,20 @@ Qed.
 Lemma applied_load_dump e cl s :
   applied (nd (load_dump e cl s)) = applied (nd s) \/
   exists sn, stored (sr (nd s)) = Some (Good sn) /\ s_ver sn <= self_ver (nd s) /\
-             applied (nd (load_dump e cl s)) = eidx (s_e1 sn).
+             applied (nd (load_dump e cl s)) = eidx (s_e1 sn) /\
+             (cl = true -> applied (nd s) < eidx (s_e1 sn)).
 Proof.
   unfold load_dump. destruct (stored (sr (nd s))) as [[sn|]|] eqn:Es; try now left.
+  destruct (cl && (eidx (s_e1 sn) <=? applied (nd s))) eqn:Eb; [now left|].
   destruct (self_ver (nd s) <? s_ver sn) eqn:Ev; [now left|]. apply N.ltb_ge in Ev.
-  right. exists sn. split; [reflexivity|]. split; [exact Ev|].
-  destruct (dyn (cf e)); rewrite ?(fr_update_cluster applied) by frs; reflexivity.
+  right. exists sn. split; [reflexivity|]. split; [exact Ev|]. split.
+  - destruct (dyn (cf e)); rewrite ?(fr_update_cluster applied) by frs; reflexivity.
+  - intros ->. cbn in Eb. now apply N.leb_gt in Eb.
 Qed.
 
 Definition snap_ahead_tick (e : env) (n : node) : Prop :=
   need_load n && file_dump (cf e) = true ->
   forall sn, stored (sr n) = Some (Good sn) -> s_ver sn <= self_ver n -> applied n <= eidx (s_e1 sn).
-
-Definition snap_ahead_msg (m : msg) (n : node) : Prop :=
-  match m with
-  | AESnap t c p =>
-    term n <= t ->
-    forall sn, recv_snapshot p (sr n) = Some (Good sn) -> s_ver sn <= self_ver n ->
-               applied n <= eidx (s_e1 sn)
-  | _ => True
-  end.
 
 Lemma applied_mono_tick e n : snap_ahead_tick e n -> applied n <= applied (nd (on_tick e n)).
 Proof.
@@ -497,7 +493,7 @@ Proof.
   assert (H1 : applied n <= applied (nd (tick_load e (start_S e n)))).
   { unfold tick_load. rewrite nd_upd. cbn [applied set]. cbn [nd start_S].
     destruct (need_load n && file_dump (cf e)) eqn:En; [|cbn; lia].
-    destruct (applied_load_dump e false (start_S e n)) as [H|(sn & Hs & Hv & H)]; rewrite H; cbn; [lia|].
+    destruct (applied_load_dump e false (start_S e n)) as [H|(sn & Hs & Hv & H & _)]; rewrite H; cbn; [lia|].
     apply (Hsa En sn); assumption. }
   destruct (ok _); [|exact H1].
   eapply N.le_trans; [exact H1|]. generalize (tick_load e (start_S e n)). intros s.
@@ -518,10 +514,11 @@ Proof.
   rewrite (fr_try_compact applied) by frs. lia.
 Qed.
 
-Lemma applied_mono_msg e from m n :
-  snap_ahead_msg m n -> applied n <= applied (nd (on_message e from m n)).
+(* a received snapshot is installed only when it is ahead of the node's position, so no message
+   handler lowers applied *)
+Lemma applied_mono_msg e from m n : applied n <= applied (nd (on_message e from m n)).
 Proof.
-  intros Hsa. destruct m as [t lli llt|t|t c prev es|t c prev lab off len en|t c p|cm req|req okr a b|t nx r su].
+  destruct m as [t lli llt|t|t c prev es|t c prev lab off len en|t c p|cm req|req okr a b|t nx r su].
   - rewrite (fr_msg_request_vote applied) by frs. lia.
   - rewrite (fr_msg_response_vote applied) by frs. lia.
   - unfold on_message. rewrite on_append_entries_eq. cbn [nd start_S].
@@ -548,28 +545,26 @@ Proof.
     pose proof (fr_set_transmission self_ver) as F2.
     specialize (F1 ltac:(frs) p s0). specialize (F2 ltac:(frs) p s0).
     destruct (set_transmission p s0) as [s2 dn]. cbn [fst snd] in *.
-    destruct (dn && load_dump_ok s2) eqn:Ed.
-    2:{ rewrite (fr_ae_commit applied) by frs. lia. }
-    apply andb_prop in Ed. destruct Ed as [-> Hok].
-    destruct (Hst eq_refl) as (b & Hb1 & Hb2).
-    rewrite (fr_ae_commit applied), nd_send_next_idx by frs.
-    destruct (applied_load_dump e true s2) as [H|(sn & Hs & Hv & H)]; rewrite H; [lia|].
-    rewrite Hb2 in Hs. inversion Hs; subst b.
-    cbn in Hsa. rewrite <- L0 in Hsa. specialize (Hsa Et sn Hb1). lia.
+    assert (Hld : applied n <= applied (nd (load_dump e true s2))).
+    { destruct (applied_load_dump e true s2) as [H|(sn & Hs & Hv & H & Hah)]; rewrite H; [lia|].
+      specialize (Hah eq_refl). lia. }
+    destruct (dn && load_dump_ok s2); [|destruct dn]; rewrite (fr_ae_commit applied) by frs;
+      rewrite ?nd_send_next_idx; lia.
   - rewrite (fr_msg_apply_cmd applied) by frs. lia.
   - rewrite (fr_msg_apply_resp applied) by frs. lia.
   - rewrite (fr_msg_next_idx applied) by frs. lia.
 Qed.
 
-(* C04_applied_monotone_partial: every handler; the two snapshot loads under the stated condition *)
-Theorem applied_monotone_partial c n n' :
-  nstep c (fun m => snap_ahead_msg m n) n n' ->
+(* C04_applied_monotone: every handler and every delivered message; only the load of the dump file
+   in a node's first tick (restart path, load_dump e false) needs the stated condition *)
+Theorem applied_monotone_handlers c MP n n' :
+  nstep c MP n n' ->
   (forall e, cf e = c -> snap_ahead_tick e n) ->
   applied n <= applied n'.
 Proof.
   intros H Ht. destruct H.
   - apply applied_mono_tick. auto.
-  - apply applied_mono_msg. assumption.
+  - apply applied_mono_msg.
   - rewrite (fr_on_connected applied) by frs. lia.
   - rewrite (fr_on_disconnected applied) by frs. lia.
   - unfold api_submit. rewrite (fr_submit applied) by frs. cbn. lia.
@@ -578,8 +573,8 @@ Proof.
   - cbn. lia.
 Qed.
 
-(* the unconditional statement needs the global invariants (a node is only ever sent / only ever
-   stores a snapshot of a prefix that extends what it has applied) *)
+(* the unconditional statement needs a global invariant for the restart path: the dump a node finds
+   in its first tick is not behind what it has applied by then *)
 Definition C04_applied_monotone_full : Prop :=
   forall c evs0 evs g g' x n n',
     run_trace c ginit evs0 = Some g -> run_trace c g evs = Some g' -> runs_through x evs ->
